@@ -7,6 +7,7 @@ Inductive xop :=
 | XWrite (p c : bytes)
 | XRemove (p : bytes)
 | XChmod (p : bytes) (x : bool)
+| XMove (p q : bytes)
 | XRmCache (name : bytes)
 | XRmRuler
 | XRmCacheDir
@@ -23,6 +24,7 @@ Definition cop_of (x : xop) : list cop :=
   | XWrite p c => [OWrite p c]
   | XRemove p => [ORemove p]
   | XChmod p b => [OChmod p b]
+  | XMove p q => [OMove p q]
   | XRmCache name => match decode62 name with Ok t => [ORmCache t] | Err _ => [] end
   | XRmRuler => [ORmRuler]
   | XRmCacheDir => [ORmCacheDir]
